@@ -235,9 +235,35 @@ def _rule_with_protocol(ctx: Ctx, r: 'LockRoles', enter_rule: Optional[str], exi
     exits_ = [f for f in meths if f.name == '__exit__']
     ctxs = [f for f in meths if f.is_generator and any((dotted(d) or '').endswith('contextmanager') for d in f.decorators)]
 
+    # a method that only hands back what acquire() answered (`try_acquire`: `return self.acquire(blocking=False)`) is an
+    # acquire() as far as this protocol goes: its truthy answer is acquire()'s
+    forwarders: Set[Scope] = set()
+    grew = True
+    while grew:
+        grew = False
+        for m in meths:
+            if m in forwarders or m is r.acquire or m.is_generator or m.is_async:
+                continue
+            rets = [x for x in own_nodes(m.node) if isinstance(x, ast.Return)]
+            gm = None
+            ok = bool(rets)
+            for x in rets:
+                if not isinstance(x.value, ast.Call):
+                    ok = False
+                    break
+                gm = gm or build(m, p)
+                ci = callee_info(gm, x.value)
+                if not (ci['kind'] == 'package' and any(t is r.acquire or t in forwarders for t in ci.get('scopes', []))):
+                    ok = False
+                    break
+            if ok:
+                forwarders.add(m)
+                grew = True
+
     def calls_of(g, target):
+        tg = {target} | (forwarders if target is r.acquire else set())
         return [n for n in g.nodes if n.kind == 'call' and callee_info(g, n.ast)['kind'] == 'package'
-                and target in callee_info(g, n.ast).get('scopes', [])]
+                and tg & set(callee_info(g, n.ast).get('scopes', []))]
 
     def success_edges(g, acqs):
         out = set()
@@ -249,13 +275,46 @@ def _rule_with_protocol(ctx: Ctx, r: 'LockRoles', enter_rule: Optional[str], exi
             for b in br:
                 out |= {id(e) for e in g.succ[b.id] if e.label == 'true'}
         return out
+
+    def result_var(g, acqs):
+        """The local that holds acquire()'s answer (assigned once, from the acquire call)."""
+        out = set()
+        for a in acqs:
+            par = parent(a.ast)
+            if isinstance(par, ast.Assign) and len(par.targets) == 1 and isinstance(par.targets[0], ast.Name):
+                nm = par.targets[0].id
+                stores = [x for x in ast.walk(g.scope.node) if isinstance(x, ast.Name) and x.id == nm and isinstance(x.ctx, (ast.Store, ast.Del))]
+                if len(stores) == 1:
+                    out.add(nm)
+        return out
+
+    def telling(g, acqs, se):
+        """Yields that tell the with-statement the truth about the lock instead of promising it: `yield False` where no
+        successful acquire() can have happened, and `yield <the acquire result>`.  -> (reports_failure, reports_result)"""
+        got = result_var(g, acqs)
+        after_success = reach(g, [], start_edges=[e for n in g.nodes for e in g.succ[n.id] if id(e) in se], flag_sensitive=False) if se else set()
+        fail, res = [], []
+        for y in g.nodes:
+            if y.kind != 'yield':
+                continue
+            v = y.ast.value if isinstance(y.ast, ast.Yield) else None
+            if isinstance(v, ast.Constant) and v.value is False and y.id not in after_success:
+                fail.append(y)
+            elif isinstance(v, ast.Name) and v.id in got:
+                res.append(y)
+        return fail, res, got
     if enter_rule:
         for f in enters + ctxs:
             g = build(f, p, inline_methods=True)
             acqs = calls_of(g, r.acquire)
             se = success_edges(g, acqs)
-            region = [n for n in g.nodes if n.kind == 'yield'] if f in ctxs else [n for n in g.nodes if n.kind == 'return'] + \
-                [n for n in g.nodes if n.kind == 'implicit_return']
+            fail, res, _ = telling(g, acqs, se) if f in ctxs else ([], [], set())
+            region = [n for n in g.nodes if n.kind == 'yield' and n not in fail and n not in res] if f in ctxs else \
+                [n for n in g.nodes if n.kind == 'return'] + [n for n in g.nodes if n.kind == 'implicit_return']
+            if f in ctxs and (fail or res) and not region and acqs:
+                ctx.holds(enter_rule, f'{f.qualname}: every yield hands the with-statement the truth about acquire() (False only where no '
+                          'acquire() succeeded, or acquire()\'s own answer): the caller decides, nothing is promised', f'{FILE}:{f.lineno}')
+                continue
             w = None
             for t in region:
                 w = w or find_path(g, [g.entry], [t], edge_ok=lambda e: id(e) not in se)
@@ -275,13 +334,33 @@ def _rule_with_protocol(ctx: Ctx, r: 'LockRoles', enter_rule: Optional[str], exi
         for f in ctxs:
             g = build(f, p, inline_methods=True)
             rels = calls_of(g, r.release)
-            ys = [n for n in g.nodes if n.kind == 'yield']
+            acqs = calls_of(g, r.acquire)
+            fail, res, got = telling(g, acqs, success_edges(g, acqs))
+            ys = [n for n in g.nodes if n.kind == 'yield' and n not in fail]
             starts = [e for y in ys for e in g.succ[y.id]]
-            w = must_pass(g, [], [g.exit, g.raise_exit], rels, start_edges=starts) if starts else None
+            # a path that learns afterwards that acquire() said no has nothing to give back
+
+            def not_refused(e, g=g, got=got):
+                t = e.src.meta.get('test') if e.src.kind == 'branch' else None
+                if isinstance(t, ast.Name) and t.id in got:
+                    return e.label != 'false'
+                if isinstance(t, ast.UnaryOp) and isinstance(t.op, ast.Not) and isinstance(t.operand, ast.Name) and t.operand.id in got:
+                    return e.label != 'true'
+                return True
+            w = must_pass(g, [], [g.exit, g.raise_exit], rels, start_edges=starts, edge_ok=not_refused if res else None) if starts else None
             ctx.check(exit_rule, f'{f.qualname}: after the yield every exit (normal, exception thrown in by the with-body) passes release()',
                       f'{FILE}:{f.lineno}', w is None and bool(rels) and bool(starts),
                       'released in a finally', 'an exception in the with-body (or its normal end) leaves the lock held',
                       witness=render(g, w), construct=construct_key(f.qualname, 'ctx exit without release'))
+
+
+def _interrupt_after_clean_release(o: Outcome) -> bool:
+    """A raise outcome that carries no `Exception` (KeyboardInterrupt / SystemExit out of a user callback, say) and leaves
+    everything released: the lock's state is what a normal return would have left."""
+    from ..model import carries_exception
+    s = o.state
+    return o.kind == 'raise' and not carries_exception(o.classes or ()) and bool(o.classes) and s.locked is False \
+        and s.v['CNT'] == Lin(0, 0) and s.v['DEPTH'] == Lin(0, 0)
 
 
 def run_release(ctx: Ctx, r: LockRoles, locked: Optional[bool]):
@@ -767,7 +846,7 @@ def c12(ctx: Ctx) -> None:
                     and (s.c_known is not None or s.cmin >= 2)
                 if s.c_known is not None:
                     ok = s.v['CNT'] == Lin(0, s.c_known - 1) and s.v['DEPTH'] == Lin(0, s.c_known - 1) and s.c_known >= 2
-            if o.kind == 'raise':
+            if o.kind == 'raise' and not _interrupt_after_clean_release(o):
                 ok = False
                 exp = 'release() does not raise'
             inst = (f'release(force={forced}) with c={s.c_known if s.c_known is not None else ">=" + str(s.cmin)}: '
@@ -791,8 +870,8 @@ def c12(ctx: Ctx) -> None:
             if ck is not None:
                 st0.fix_c(Fraction(ck))
             outs2 = it2.run(r.release, st0)
-            bad2 = [o for o in outs2 if not (o.kind == 'return' and o.state.locked is False and o.state.v['CNT'] == Lin(0, 0)
-                                             and o.state.v['DEPTH'] == Lin(0, 0))]
+            bad2 = [o for o in outs2 if not ((o.kind == 'return' or _interrupt_after_clean_release(o)) and o.state.locked is False
+                                             and o.state.v['CNT'] == Lin(0, 0) and o.state.v['DEPTH'] == Lin(0, 0))]
             o2 = bad2[0] if bad2 else None
             ctx.check('C12-R13', f'{label}: {len(outs2)} path(s)', f'{FILE}:{(o2.node.line if o2 else r.release.lineno)}', not bad2 and bool(outs2),
                       'every path ends with the OS lock dropped, the counter 0 and the thread lock free',
@@ -825,7 +904,7 @@ def c12(ctx: Ctx) -> None:
             seen9.add(key)
             lowered = (s.v['DEPTH'] != Lin(1, 0)) if s.c_known is None else (s.v['DEPTH'] != Lin(0, s.c_known))
             ctx.check('C12-R9', f'OS release raised (c={s.c_known if s.c_known is not None else ">=" + str(s.cmin)}): '
-                                f'{o.kind}, DEPTH={s.v["DEPTH"]!r}', f'{FILE}:{o.node.line}', lowered and o.kind == 'return',
+                                f'{o.kind}, DEPTH={s.v["DEPTH"]!r}', f'{FILE}:{o.node.line}', lowered and (o.kind == 'return' or _interrupt_after_clean_release(o)),
                       'a failing unlock/close still frees the in-process lock',
                       'a failing unlock/close leaves the in-process lock held forever (or escapes from release())',
                       witness=s.trace, construct=construct_key(r.release.qualname, 'OS release failure keeps TL'))
@@ -1137,11 +1216,13 @@ def _exec_abs(stmts: List[ast.stmt], env: Dict[str, tuple], default_attr: str, s
     for s in stmts:
         if stop(s):
             return True
-        if isinstance(s, ast.Expr) and isinstance(s.value, ast.Constant):
-            continue
+        if isinstance(s, ast.Expr):
+            continue            # an expression statement binds no local
         if isinstance(s, ast.If):
             t = _eval_abs(s.test, env, default_attr)
             if t is None or t[0] != 'bool':
+                if _inert(s.body) and _inert(s.orelse):
+                    continue    # an argument check on something else (the poll interval, ...): it refuses or does nothing
                 return False
             if not _exec_abs(s.body if t[1] else s.orelse, env, default_attr, stop):
                 return False
@@ -1170,8 +1251,18 @@ def _exec_abs(stmts: List[ast.stmt], env: Dict[str, tuple], default_attr: str, s
     return True
 
 
+def _inert(stmts: List[ast.stmt]) -> bool:
+    """Statements that bind nothing: expression statements, pass, raise, and ifs made of those (validation blocks)."""
+    return all(isinstance(s, (ast.Expr, ast.Pass, ast.Raise)) or (isinstance(s, ast.If) and _inert(s.body) and _inert(s.orelse))
+               for s in stmts)
+
+
 class _NotUnderstood(Exception):
     pass
+
+
+class _Refuses(Exception):
+    """The folded statements raise for this sample: acquire() refuses the arguments."""
 
 
 def _conc(e: ast.AST, env: Dict[str, object], default_attr: str, default_val: float):
@@ -1383,9 +1474,17 @@ def _exec_conc(stmts: List[ast.stmt], env: Dict[str, object], default_attr: str,
         if isinstance(s_, ast.Expr):
             continue
         if isinstance(s_, ast.If):
-            if _exec_conc(s_.body if _conc(s_.test, env, default_attr, default_val) else s_.orelse, env, default_attr, default_val, stop):
+            try:
+                tv = _conc(s_.test, env, default_attr, default_val)
+            except _NotUnderstood:
+                if _inert(s_.body) and _inert(s_.orelse):
+                    continue    # an argument check on something else (the poll interval, ...): it refuses or does nothing
+                raise
+            if _exec_conc(s_.body if tv else s_.orelse, env, default_attr, default_val, stop):
                 return True
             continue
+        if isinstance(s_, ast.Raise):
+            raise _Refuses(norm(s_))
         if isinstance(s_, ast.AnnAssign):
             if s_.value is None:
                 continue
@@ -1510,6 +1609,13 @@ def _rule_arguments(ctx: Ctx, r: LockRoles) -> None:
                 except _NotUnderstood as ex_:
                     not_understood = str(ex_)
                     break
+                except _Refuses as ex_:
+                    # the property quantifies over timeouts None / -1 / 0 / positive: refusing one of those is a
+                    # behaviour threading.Lock does not have; other negative values are outside it
+                    if tv_ is None or tv_ == -1 or tv_ >= 0:
+                        n_samples += 1
+                        bad_samples.append(f'(blocking={b}, timeout={tv_}, default={dv}) -> acquire() refuses the arguments: {ex_}')
+                    continue
                 n_samples += 1
                 if tv_ is None:
                     want_b, want_t = b, (dv if b else -1)
